@@ -149,7 +149,9 @@ var statusCodes = []string{"200", "201", "204", "400", "404", "500", "100", "599
 
 // "/x~1y" and "/x~0y" hold the two-character sequences literally (their pointer tokens are ~1x~01y, ~1x~00y);
 // "/x/y" and "/x~y" are what a second, wrong unescaping would turn them into
-var pathKeys = []string{"/", "/pets", "/pets/{id}", "/a/b", "/a b", "/é", "/x~y", "/a%2Fb", "/{p}/q", "/x~1y", "/x~0y", "/x/y"}
+var pathKeys = []string{"/", "/pets", "/pets/{id}", "/a/b", "/a b", "/é", "/x~y", "/a%2Fb", "/{p}/q", "/x~1y", "/x~0y", "/x/y",
+	// escapes of escapes, and an escape that is no UTF-8: a key is a key, nothing decodes it
+	"/d/%2541pct", "/f/%25C3%25A9", "/blob/%FF", "/p/%7Bid%7D"}
 
 func (g *G) pick(xs []string) string { return xs[g.R.Intn(len(xs))] }
 func (g *G) coin(p float64) bool     { return g.R.Float64() < p }
